@@ -40,7 +40,30 @@ Record GP (X : list (N * handle)) (w : world) : Prop := mkG {
   g_done : forall t, done_sleep w t = None }.
 Definition G := GP [].
 
-(* two worlds that agree on everything the invariant reads *)
+(* handles that may be queued without a timer id: never an expiry callback, never a collector timeout *)
+Definition nocoll_b (h : handle) : bool := match h with HCollector _ => false | _ => true end.
+Definition soon_ok (h : handle) : bool := notexp_b h && nocoll_b h.
+(* the part of the ghost history the conservation invariant reads: what was queued and what was handed over *)
+Definition qlog (l : list (N * gev)) : list (N * gev) :=
+  filter (fun p => match snd p with GSend _ _ _ _ => false | _ => true end) l.
+
+(* the session-id part of the ghost history, oldest first: destination and the (flag, id) it was given *)
+Fixpoint slog (l : list (N * gev)) : list (dest * (bool * N)) :=
+  match l with
+  | [] => []
+  | (_, GSend _ d f i) :: r => slog r ++ [(d, (f, i))]
+  | _ :: r => slog r
+  end.
+Definition fi_eqb (a b : bool * N) : bool := Bool.eqb (fst a) (fst b) && (snd a =? snd b).
+(* replaying logged assignments on an outgoing-id table: None when a logged value is not what the table hands out *)
+Fixpoint osteps (o : list (dest * (bool * N))) (l : list (dest * (bool * N))) : option (list (dest * (bool * N))) :=
+  match l with
+  | [] => Some o
+  | (d, v) :: r => let '(v', s') := assign_outgoing (mkSess [] o) d in
+                   if fi_eqb v v' then osteps (outgoing s') r else None
+  end.
+
+(* two worlds that agree on everything the invariants read *)
 Record same (w w' : world) : Prop := mkSame {
   sm_tmr : timers w' = timers w; sm_rdy : rdy w' = rdy w; sm_can : cancelled w' = cancelled w;
   sm_next : next_id w' = next_id w; sm_store : forall st a, inner a (get_store st w') = inner a (get_store st w);
@@ -50,21 +73,33 @@ Record same (w w' : world) : Prop := mkSame {
   sm_ne : ne_ready w' = ne_ready w;
   sm_now : now w' = now w;
   sm_cfg : cfg w' = cfg w;
-  sm_ready : exists l, ready w' = ready w ++ l /\ Forall (fun r => fst r = None) l }.
+  sm_collectors : collectors w' = collectors w;
+  sm_queues : queues w' = queues w;
+  sm_qlog : qlog (glog w') = qlog (glog w);
+  sm_sess : exists l, slog (glog w') = slog (glog w) ++ l /\ osteps (outgoing (sess w)) l = Some (outgoing (sess w'));
+  sm_ready : exists l, ready w' = ready w ++ l /\ Forall (fun r => fst r = None /\ nocoll_b (snd r) = true) l }.
 
-Lemma same_refl w : same w w. Proof. constructor; try reflexivity. exists []. rewrite app_nil_r. split; [reflexivity|constructor]. Qed.
+Lemma osteps_app o l1 l2 : osteps o (l1 ++ l2) = match osteps o l1 with Some o' => osteps o' l2 | None => None end.
+Proof.
+  revert o. induction l1 as [|[d v] l1 IH]; intros o; cbn [app osteps]; [reflexivity|].
+  destruct (assign_outgoing (mkSess [] o) d) as [v' s']. destruct (fi_eqb v v'); [apply IH|reflexivity].
+Qed.
+Lemma same_refl w : same w w.
+Proof. constructor; try reflexivity; exists []; rewrite app_nil_r; split; [reflexivity|constructor|reflexivity|constructor]. Qed.
 Lemma same_trans a b c : same a b -> same b c -> same a c.
 Proof.
-  intros [A1 A2 A3 A4 A5 A6 A7 A8 A9 A10 A11 Ac (l1 & A12 & A13)] [B1 B2 B3 B4 B5 B6 B7 B8 B9 B10 B11 Bc (l2 & B12 & B13)].
+  intros [A1 A2 A3 A4 A5 A6 A7 A8 A9 A10 A11 Ac Ad Ae Af (m1 & As1 & As2) (l1 & A12 & A13)]
+         [B1 B2 B3 B4 B5 B6 B7 B8 B9 B10 B11 Bc Bd Be Bf (m2 & Bs1 & Bs2) (l2 & B12 & B13)].
   constructor; try congruence; try (intros; rewrite ?B5, ?B6, ?B7, ?B9; auto; fail).
-  exists (l1 ++ l2). rewrite B12, A12, app_assoc. split; [reflexivity|apply Forall_app; auto].
+  - exists (m1 ++ m2). rewrite Bs1, As1, app_assoc. split; [reflexivity|]. rewrite osteps_app, As2. exact Bs2.
+  - exists (l1 ++ l2). rewrite B12, A12, app_assoc. split; [reflexivity|apply Forall_app; auto].
 Qed.
 Lemma same_tided w w' : same w w' -> tided w' = tided w.
 Proof. intros [A1 A2 _ _ _ _ _ _ _ _ _ _]. unfold tided, tmr. rewrite A1, A2. reflexivity. Qed.
 
 Lemma same_G X w w' : same w w' -> GP X w -> GP X w'.
 Proof.
-  intros Hs [H1 H2 H3 H4 H5 H6 H7 H8 H9]. pose proof (same_tided _ _ Hs) as Ht. destruct Hs as [A1 A2 A3 A4 A5 A6 A7 A8 A9 A10 A11 Ac A12].
+  intros Hs [H1 H2 H3 H4 H5 H6 H7 H8 H9]. pose proof (same_tided _ _ Hs) as Ht. destruct Hs as [A1 A2 A3 A4 A5 A6 A7 A8 A9 A10 A11 Ac Ad Ae Af Ag A12].
   constructor; rewrite ?Ht, ?A3, ?A4; try assumption.
   - intros st a k tid. rewrite A5. apply H3.
   - intros st a. rewrite A5. apply H4.
@@ -92,9 +127,15 @@ Lemma keeps_fold {Y} (f : world -> Y -> world) l : (forall x, keeps (fun w => f 
 Proof. intros H. induction l as [|x l IH]; intros X w Hg; cbn [fold_left]; [exact Hg|]. apply IH. apply (H x). exact Hg. Qed.
 
 (* ------------------------------------------------------------------ neutral primitives *)
-Ltac triv_same := constructor; intros; try reflexivity; exists []; rewrite app_nil_r; split; [reflexivity|constructor].
+Ltac triv_same := constructor; intros; try reflexivity; exists []; rewrite app_nil_r; split; first [reflexivity|constructor].
 Lemma n_emit e : neutral (emit e). Proof. intros w. triv_same. Qed.
-Lemma n_set_sess s : neutral (set_sess s). Proof. intros w. triv_same. Qed.
+(* the session storage may change as long as the outgoing table does not (received messages only touch the incoming one) *)
+Lemma n_set_sess_in s w : outgoing s = outgoing (sess w) -> same w (set_sess s w).
+Proof. intros H. constructor; intros; try reflexivity; exists []; rewrite app_nil_r; split; first [reflexivity|constructor|cbn [osteps sess set_sess]; rewrite H; reflexivity]. Qed.
+Lemma check_received_outgoing s a mc f i : outgoing (snd (check_received s a mc f i)) = outgoing s.
+Proof. unfold check_received. destruct (aget _ _ _) as [[of oi]|]; reflexivity. Qed.
+Lemma n_set_sess_rx w a mc f i : same w (set_sess (snd (check_received (sess w) a mc f i)) w).
+Proof. apply n_set_sess_in, check_received_outgoing. Qed.
 Lemma n_set_draws s : neutral (set_draws s). Proof. intros w. triv_same. Qed.
 Lemma n_set_sub_entries s : neutral (set_sub_entries s). Proof. intros w. triv_same. Qed.
 Lemma n_set_sub_alive s : neutral (set_sub_alive s). Proof. intros w. triv_same. Qed.
@@ -104,21 +145,25 @@ Lemma n_set_watch_all s : neutral (set_watch_all s). Proof. intros w. triv_same.
 Lemma n_set_disc_task s : neutral (set_disc_task s). Proof. intros w. triv_same. Qed.
 Lemma n_set_ann_started s : neutral (set_ann_started s). Proof. intros w. triv_same. Qed.
 Lemma n_set_announcing s : neutral (set_announcing s). Proof. intros w. triv_same. Qed.
-Lemma n_set_queues s : neutral (set_queues s). Proof. intros w. triv_same. Qed.
-Lemma n_ghost g : neutral (ghost g). Proof. intros w. triv_same. Qed.
 (* moving the clock changes nothing the ownership invariants read *)
 Lemma GP_set_now X t w : GP X w -> GP X (set_now t w).
+Proof. intros [H1 H2 H3 H4 H5 H6 H7 H8 H9]. constructor; assumption. Qed.
+(* nor do the ghost history and the destination -> collector table *)
+Lemma GP_ghost X g w : GP X w -> GP X (ghost g w).
+Proof. intros [H1 H2 H3 H4 H5 H6 H7 H8 H9]. constructor; assumption. Qed.
+Lemma GP_set_queues X q w : GP X w -> GP X (set_queues q w).
 Proof. intros [H1 H2 H3 H4 H5 H6 H7 H8 H9]. constructor; assumption. Qed.
 
 Lemma rdy_app (l1 l2 : list (option N * handle)) w :
   rdy (set_ready (l1 ++ l2) w) = rdy (set_ready l1 w) ++ rdy (set_ready l2 w).
 Proof. unfold rdy. cbn [ready set_ready]. apply flat_map_app. Qed.
-Lemma n_call_soon h : notexp_b h = true -> neutral (call_soon h).
+Lemma n_call_soon h : soon_ok h = true -> neutral (call_soon h).
 Proof.
-  intros Hn w. constructor; try reflexivity.
+  intros Hs w. unfold soon_ok in Hs. apply andb_true_iff in Hs. destruct Hs as [Hn Hc]. constructor; try reflexivity.
   - unfold call_soon, rdy. cbn [ready set_ready]. rewrite flat_map_app. cbn. rewrite app_nil_r. reflexivity.
   - unfold call_soon, ne_ready. cbn [ready set_ready]. rewrite forallb_app. cbn. rewrite Hn, !andb_true_r. reflexivity.
-  - exists [(None, h)]. split; [reflexivity|constructor; [reflexivity|constructor]].
+  - exists []. rewrite app_nil_r. split; reflexivity.
+  - exists [(None, h)]. split; [reflexivity|constructor; [split; [reflexivity|exact Hc]|constructor]].
 Qed.
 Lemma n_id : neutral (fun w => w). Proof. intros w. apply same_refl. Qed.
 
@@ -137,8 +182,16 @@ Proof. intros w. unfold draw. destruct (draws w); cbn [snd]; [apply same_refl|ap
 Lemma n_send_sd es d : neutral (send_sd es d).
 Proof.
   intros w. unfold send_sd. destruct es as [|e es]; [apply same_refl|].
-  destruct (assign_outgoing (sess w) d) as [[fl sid] s']. destruct (sd_datagram _ _ _);
-    (eapply same_trans; [apply n_ghost|]; eapply same_trans; [apply n_set_sess|apply n_emit]).
+  assert (Ho : assign_outgoing (mkSess [] (outgoing (sess w))) d
+               = (fst (assign_outgoing (sess w) d), mkSess [] (outgoing (snd (assign_outgoing (sess w) d))))).
+  { unfold assign_outgoing, out_get. cbn [outgoing]. destruct (aget dest_eqb d (outgoing (sess w))) as [[f0 i0]|]; reflexivity. }
+  destruct (assign_outgoing (sess w) d) as [[fl sid] s'] eqn:Ea. cbn [fst snd] in Ho.
+  assert (Hs : same w (set_sess s' (ghost (GSend (e :: es) d fl sid) w))).
+  { constructor; intros; try reflexivity.
+    - exists [(d, (fl, sid))]. split; [reflexivity|]. cbn [osteps]. rewrite Ho. unfold fi_eqb. cbn [fst snd].
+      rewrite Bool.eqb_reflx, N.eqb_refl. reflexivity.
+    - exists []. rewrite app_nil_r. split; [reflexivity|constructor]. }
+  destruct (sd_datagram _ _ _); (eapply same_trans; [exact Hs|apply n_emit]).
 Qed.
 
 (* ------------------------------------------------------------------ basic facts *)
@@ -680,9 +733,9 @@ Proof. intros H. pose proof (keys_aset N.eqb c v l) as K. unfold keys in K. rewr
 Lemma keeps_queue_send e d : keeps (queue_send e d).
 Proof.
   intros X w0 Hg0. unfold queue_send.
-  assert (Hg : GP X (ghost (GQueue e d) w0)) by (eapply same_G; [apply n_ghost|exact Hg0]).
+  assert (Hg : GP X (ghost (GQueue e d) w0)) by (apply GP_ghost; exact Hg0).
   revert Hg. generalize (ghost (GQueue e d) w0). clear w0 Hg0. intros w Hg. unfold queue_core.
-  destruct (t_collect (cfg w) =? 0); [eapply same_G; [apply n_send_sd|]; eapply same_G; [apply n_ghost|exact Hg]|].
+  destruct (t_collect (cfg w) =? 0); [eapply same_G; [apply n_send_sd|]; apply GP_ghost; exact Hg|].
   set (open := match aget dest_eqb d (queues w) with
                | Some c => match aget N.eqb c (collectors w) with Some co => if co_done co then None else Some (c, co) | None => None end
                | None => None end).
@@ -707,7 +760,7 @@ Proof.
     assert (Hg1 : GP X w1) by (rewrite Hw1; apply keeps_call_later; exact Hg).
     assert (Hcol : collectors w1 = collectors w) by (rewrite Hw1; reflexivity).
     assert (Hnx : next_id w1 = next_id w + 1) by (rewrite Hw1; reflexivity).
-    eapply same_G; [apply n_set_queues|].
+    apply GP_set_queues.
     destruct Hg1 as [H1 H2 H3 H4 H5 H6 H7 H8 H9]. constructor; try assumption.
     + intros c. unfold open_coll. cbn [collectors set_collectors]. rewrite aget_snoc_N. cbn [fst snd co_done negb].
       destruct (aget N.eqb c (collectors w1)) as [co'|] eqn:E2.
@@ -723,7 +776,7 @@ Lemma keeps_collector_timeout c : keeps (collector_timeout c).
 Proof.
   intros X w Hg. unfold collector_timeout. destruct (aget N.eqb c (collectors w)) as [co|] eqn:E; [|exact Hg].
   eapply same_G; [apply n_send_sd|].
-  assert (Hg' : GP X (ghost (GFlush (co_dest co) (co_data co)) w)) by (eapply same_G; [apply n_ghost|exact Hg]).
+  assert (Hg' : GP X (ghost (GFlush (co_dest co) (co_data co)) w)) by (apply GP_ghost; exact Hg).
   change (collectors w) with (collectors (ghost (GFlush (co_dest co) (co_data co)) w)) in E |- *.
   revert Hg' E. generalize (ghost (GFlush (co_dest co) (co_data co)) w). clear w Hg. intros w Hg E.
   eapply GP_weaken; [exact Hg|reflexivity|reflexivity|cbn; lia|reflexivity|intros t tid H; exact H| | |apply (g_done _ _ Hg)].
@@ -791,7 +844,7 @@ Qed.
 
 Lemma n_put_inst i ins' w ins : get_inst i w = Some ins -> in_subs ins' = in_subs ins -> same w (put_inst i ins' w).
 Proof.
-  intros Hget Hs. constructor; try reflexivity; [|exists []; rewrite app_nil_r; split; [reflexivity|constructor]]. intros st a. destruct st as [|j]; [reflexivity|].
+  intros Hget Hs. constructor; try reflexivity; [|exists []; rewrite app_nil_r; split; reflexivity|exists []; rewrite app_nil_r; split; [reflexivity|constructor]]. intros st a. destruct st as [|j]; [reflexivity|].
   unfold get_store, put_inst. cbn [insts set_insts]. destruct (N.eqb_spec j i) as [->|Hne].
   - rewrite (aget_aset_same N.eqb N.eqb_eq). unfold get_inst in Hget. rewrite Hget, Hs. reflexivity.
   - rewrite (aget_aset_other N.eqb N.eqb_eq) by exact Hne. reflexivity.
@@ -984,8 +1037,9 @@ Lemma keeps_message_received m a mc : keeps (message_received m a mc).
 Proof.
   intros X w Hg. unfold message_received. destruct (negb (is_sd_message m)); [exact Hg|].
   destruct (parse_sd (m_payload m)) as [[h r]|]; [|exact Hg].
-  destruct (check_received (sess w) a mc (sd_reboot h) (m_sess m)) as [rb s'].
-  assert (Hg1 : GP X (set_sess s' w)) by (eapply same_G; [apply n_set_sess|exact Hg]).
+  pose proof (n_set_sess_rx w a mc (sd_reboot h) (m_sess m)) as Hrx.
+  destruct (check_received (sess w) a mc (sd_reboot h) (m_sess m)) as [rb s']. cbn [snd] in Hrx.
+  assert (Hg1 : GP X (set_sess s' w)) by (eapply same_G; [exact Hrx|exact Hg]).
   assert (Hg2 : GP X (if rb then reboot_detected a (set_sess s' w) else set_sess s' w)).
   { destruct rb; [apply keeps_reboot_detected|]; exact Hg1. }
   destruct (resolve_sd h); [apply keeps_sd_message_received|]; exact Hg2.
